@@ -98,6 +98,9 @@ pub fn jobs_for(prop: &str) -> Vec<Job> {
     match prop {
         "C02" | "C08" => {
             let mut v = seq_all(Focus::General, 1);
+            if prop == "C08" {
+                v.extend(conc_all());
+            }
             // exhaustive small scope: every (chain length 0..8, base, snapshot?, class of parent)
             let n = crate::seq::parentgrid_cases().len() as u64;
             for (name, b, e) in [("parentgrid-mem-lib", Backend::Memory, Entry::Lib), ("parentgrid-mem-http", Backend::Memory, Entry::Http), ("parentgrid-sqlite-lib", Backend::Sqlite, Entry::Lib), ("parentgrid-sqlite-http", Backend::Sqlite, Entry::Http)] {
